@@ -1,6 +1,7 @@
 SPECIFICATION Spec
 CONSTANT CheckBounds = TRUE
 CONSTANT CheckShort = TRUE
+CONSTANT CheckMapping = TRUE
 CONSTANT MaxRows = 9
 INVARIANT WindowRows
 INVARIANT Served
@@ -8,4 +9,5 @@ INVARIANT Rejected
 INVARIANT InOrder
 INVARIANT NoWriteThrough
 INVARIANT SecondColumn
+INVARIANT MappingHonoured
 CHECK_DEADLOCK FALSE
